@@ -73,6 +73,17 @@ static bool verify(polyseed_data* s, const pv_mseed* m, pv_rng* rng, const char*
     return ok;
 }
 
+/* "each application toggles the encrypted flag" as application code observes it: the query is called by name, before and after
+ * the operation, on a pointer held in a parameter, in optimised code.  (A header that declares the getters `const` or `pure` lets
+ * the caller's compiler merge the two queries; the library is then right and every caller wrong.) */
+static int crypt_and_watch(polyseed_data* p, const char* pw) {
+    int before = polyseed_is_encrypted(p);
+    pv_cur.in_ptr = pw; pv_cur.in_len = strlen(pw);
+    pv_world_begin("polyseed_crypt"); polyseed_crypt(p, pw); pv_world_end();
+    int after = polyseed_is_encrypted(p);
+    return (before != 0) != (after != 0);
+}
+
 /* one application; returns false on KDF-argument mismatch.  The model is advanced with the mask the monitor returned. */
 static pv_rng* g_rng;
 static bool apply(polyseed_data* s, pv_mseed* m, const char* pw, const char* pwcls) {
@@ -84,8 +95,9 @@ static bool apply(polyseed_data* s, pv_mseed* m, const char* pw, const char* pwc
      * applications the next allocation request (if the operation makes any) is refused */
     bool armed = g_rng && pv_randn(g_rng, 4) == 0;
     if (armed) { pv_arm_some_request(); PV_COUNT("crypt.with_failing_allocator", 1); }
-    pv_api_crypt(s, pw);
+    bool toggled = crypt_and_watch(s, pw);
     if (armed) { if (pv_w->fail_countdown == 0) PV_COUNT("crypt.with_failing_allocator(request refused)", 1); pv_w->fail_countdown = 0; }
+    if (!toggled) pv_violation("C12/flag-not-toggled", "[%s] polyseed_is_encrypted called directly before and after polyseed_crypt gives the same answer", pwcls); else PV_COUNT("crypt.flag_toggled_as_seen_by_direct_queries", 1);
     int nk_ev = pv_ev_count(PV_EV_KDF);
     if (other) polyseed_enable_features(7);
     (void)nk_ev;
